@@ -45,7 +45,7 @@ func c04Alphabet() []areq {
 	}
 	al = append(al, R(wire.Twalkgetattr, u(0), u(2), []string{"a"}), R(wire.Twalkgetattr, u(1), u(2), []string{}))
 	for _, f := range []uint64{1, 2} {
-		for _, fl := range []uint64{0, 1, 2, 0x8000, 0x201} { // access mode plus, sometimes, bits beyond it (O_LARGEFILE, O_TRUNC)
+		for _, fl := range []uint64{0, 1, 2, 0x8000, 0x201, 0x10000} { // access mode plus, sometimes, bits beyond it (O_LARGEFILE, O_TRUNC; O_DIRECTORY, which the backend refuses on a non-directory as open(2) does)
 			al = append(al, R(wire.Tlopen, f, fl))
 		}
 		al = append(al, R(wire.Tread, f, u(0), u(8)), R(wire.Twrite, f, u(0), []byte("xy")), R(wire.Twrite, f, u(2), []byte("zw")), R(wire.Treaddir, f, u(0), u(4096)), R(wire.Tfsync, f),
@@ -199,7 +199,7 @@ type seqGen struct {
 func (g *seqGen) flags() uint64 {
 	fl := uint64(g.r.Intn(3))
 	if g.r.Chance(40) {
-		fl |= ev.Pick(g.r, []uint64{0x200, 0x400, 0x8000, 0x10000, 0x80000, 0x40, 0xFFFFFFFC})
+		fl |= ev.Pick(g.r, []uint64{0x200, 0x400, 0x8000, 0x10000, 0x10000, 0x20000, 0x80000, 0x40, 0xFFFFFFFC})
 	}
 	return fl
 }
